@@ -267,6 +267,8 @@ def add_history(rng, case, lattice):
         return
     other = gen_model(rng, k, case['cls'], lattice)
     keys = [x for x in ASSIGNABLE[k] if x in d and other.get(x) is not None]
+    if not keys:
+        return
     rng.shuffle(keys)
     chosen = keys[:rng.randint(1, len(keys))]
     init = dict(d)
